@@ -7,6 +7,7 @@ def run(ctx):
     rnd = random.Random(ctx.seed + 606)
     n = 160 if ctx.quick else 1000
     scens = [gl.history(rnd, "r%d" % i, steps=rnd.randint(3, 8), with_rt=True, with_construct=True, with_transform=True, with_copy=(i % 2 == 0), with_coef=(i % 3 == 0)) for i in range(n)]
+    scens += [gl.nonnested_history(rnd, "g%d" % i) for i in range(n // 4)]
     gl.run_grid(ctx, [("roundtrip", scens), ("mixed", gl.mixed_family(rnd, max(40, n // 5)))], gl.OBS_NODAL | gl.OBS_RT, "C06")
     ctx.assume("after every step the grid is written (ascii, binary; stream, file), read back, compared by projection, evaluation and quadrature weights, re-written and compared byte for byte, and cross-format; in a fraction of steps the history continues on the restored object")
 
